@@ -3,6 +3,8 @@ import Pxv.Model.TySpec
 import Pxv.Lemmas.Ty
 import Pxv.Lemmas.TyEquiv
 import Pxv.Lemmas.TyCanon
+import Pxv.Model.TyParse
+import Pxv.Lemmas.TyParse4
 /-!
 C17 — the type algebra used for dependency matching obeys its laws.
 Property theorems only; every statement is for all types, of any nesting depth.
@@ -145,8 +147,58 @@ example : canonicalize (.tuple (.cons (.ref false (.named "x") (.generic "T")) (
     = canonicalize (.tuple (.cons (.ref false .inferred (.generic "Q")) (.cons (.generic "R") .nil))) := by
   decide +kernel
 
+/-! ### Rendering to Rust source and reading it back -/
+
+/-- **C17 (4)** rendering a (well-formed) type to Rust source and parsing it back is lossless:
+    the reader returns the type itself, minus what the source text does not carry (`strip`: package
+    id, rustdoc id, and the path/alias distinction). Any nesting depth. -/
+theorem parse_render (t : Ty) (h : wf t = true) : parse (renderD false t) = some (strip t) :=
+  parse_renderD t h
+
+/-- The same for the `String` produced by `display_for_error` / `Display`. -/
+theorem parse_displayForError (t : Ty) (h : wf t = true) :
+    parse (displayForError t).toList = some (strip t) := by
+  simp [displayForError, String.toList_ofList, parse_render t h]
+
+/-- Hence rendering is injective on well-formed types up to `strip`: two types with the same
+    rendered source are the same type. -/
+theorem render_injective (a b : Ty) (ha : wf a = true) (hb : wf b = true)
+    (h : renderD false a = renderD false b) : strip a = strip b := by
+  have h1 := parse_render a ha
+  have h2 := parse_render b hb
+  rw [h, h2] at h1
+  exact (Option.some.inj h1).symm
+
+/-- In particular a 1-tuple is not confused with its element (it was, before the `fix:` commit:
+    `(T,)` was printed as `(T)`). -/
+theorem render_one_tuple_ne (t : Ty) (h : wf t = true) :
+    renderD false (.tuple (.cons t .nil)) ≠ renderD false t := by
+  intro e
+  have := render_injective (.tuple (.cons t .nil)) t (by simpa [wf, wfTys] using h) h e
+  cases t <;> simp [strip, stripTys] at this
+  -- `tuple [x] = x` is impossible for the tuple case as well
+  rename_i es
+  have hsz := congrArg sizeOf this
+  simp at hsz
+  omega
+
+-- Non-vacuity: `&'a mut k::Holder<(u8,), 'static, 8>` and `unsafe extern "C" fn(x: [T; 4]) -> *const str`.
+example : wf (.ref true (.named "a") (.path true "p" (some 3) ["k", "Holder"]
+    (.ty (.tuple (.cons (.scalar .u8) .nil)) (.lt .static (.const "8" .nil))))) = true := by decide +kernel
+example : displayForError (.ref true (.named "a") (.path true "p" (some 3) ["k", "Holder"]
+    (.ty (.tuple (.cons (.scalar .u8) .nil)) (.lt .static (.const "8" .nil)))))
+    = "&'a mut k::Holder<(u8,), 'static, 8>" := by decide +kernel
+example : wf (.fnPtr (.cons (some "x") (.array (.generic "T") 4) .nil) (.some (.rawPtr false (.scalar .str)))
+    (.c false) true) = true := by decide +kernel
+example : displayForError (.fnPtr (.cons (some "x") (.array (.generic "T") 4) .nil)
+    (.some (.rawPtr false (.scalar .str))) (.c false) true)
+    = "unsafe extern \"C\" fn(x: [T; 4]) -> *const str" := by decide +kernel
+-- Outside `wf` the statement is false (a generic parameter named like a primitive reads back as the primitive).
+example : parse (renderD false (.generic "u8")) = some (.scalar .u8) := by decide +kernel
+
 end Pxv.Ty
 
+#print axioms Pxv.Ty.parse_render
 #print axioms Pxv.Ty.template_bind
 #print axioms Pxv.Ty.refMut_preserved
 #print axioms Pxv.Ty.equiv_trans
